@@ -161,6 +161,10 @@ func (ex *Exec) execBlock(fr *Frame, b *ssa.BasicBlock, pc Term, st State) (Stat
 				if mt, isMap := rg.X.Type().Underlying().(*types.Map); isMap && len(tup) == 3 {
 					m := ex.val(fr, rg.X)
 					dom, val, ln := ex.mapArrays(st, rg.X.Type(), m)
+					if tup[1].Sort != ex.te.sortOf(mt.Key()) {
+						// the key is not used by the loop (blank identifier): go/ssa gives it no type
+						tup[1] = ex.freshTyped(pc, "nextkey", mt.Key())
+					}
 					fact := and(sel(dom, tup[1], SBool), app(SBool, ">=", ln, intLit(1)))
 					if tup[2].Sort == ex.te.sortOf(mt.Elem()) && tup[2].Sort != SUnit {
 						fact = and(fact, eq(tup[2], sel(val, tup[1], tup[2].Sort)))
@@ -180,6 +184,7 @@ func (ex *Exec) execBlock(fr *Frame, b *ssa.BasicBlock, pc Term, st State) (Stat
 			}
 			ex.vc.assume(pc, and(app(SBool, "<=", intLit(int64(lo)), tup[0]), app(SBool, "<", tup[0], intLit(int64(len(in.States))))), "select index")
 			fr.vals[in] = Term{Tuple: tup}
+			recvIdx := 0
 			for i, s := range in.States {
 				// a case on a nil channel is never chosen
 				if ch := ex.val(fr, s.Chan); ch.Sort == SRef {
@@ -187,6 +192,11 @@ func (ex *Exec) execBlock(fr *Frame, b *ssa.BasicBlock, pc Term, st State) (Stat
 				}
 				if s.Dir == types.SendOnly {
 					ex.siteSend(fr, s.Chan, s.Send, s.Pos, pc, st)
+				} else {
+					if 2+recvIdx < len(tup) {
+						ex.recvAssumeValue(fr, s.Chan, and(pc, eq(tup[0], intLit(int64(i)))), st, tup[2+recvIdx])
+					}
+					recvIdx++
 				}
 			}
 		case *ssa.Send:
